@@ -422,6 +422,11 @@ def real_oracle(args, notes=None):
         nm = NoiseModel([{"name": "pauli_x", "sites": [0], "strength": {"distribution": "normal", "mean": 0.05, "std": 0.01}},
                          {"name": "pauli_z", "sites": [1], "strength": {"distribution": "truncated_normal", "mean": 0.0, "std": 0.0}},
                          {"name": "lowering", "sites": [2], "strength": 0.0}])
+    if args.get("noise") == "scheduled":
+        # scheduled jumps next to a stochastic channel of negligible rate: the run counts as noisy (several trajectories on one sampled
+        # model), every trajectory is the same deterministic evolution with the scheduled jumps — whatever its index or its worker
+        nm = NoiseModel([{"name": "pauli_z", "sites": [1], "strength": 1e-12}],
+                        scheduled_jumps=[{"time": 0.1, "sites": [0], "name": "x"}, {"time": 0.2, "sites": [1, 2], "name": "crosstalk_xy"}])
     qc = QuantumCircuit(3)
     qc.h(0); qc.cx(0, 1); qc.rzz(0.4, 1, 2); qc.rx(0.3, 2)  # noqa: E702
     H = MPO.ising(3, 1.0, 0.6)
@@ -447,9 +452,17 @@ def real_oracle(args, notes=None):
         np.random.default_rng = spy
         rng_calls.clear()
         try:
-            simulator.run(st, op, p, nm if noisy else None, parallel=False)
+            simulator.run(st, op, p, nm if noisy else None, parallel=bool(args.get("parallel")))
         finally:
             np.random.default_rng = real_rng
+        if noisy and args.get("noise") == "scheduled":
+            for o in p.observables:
+                tr = np.real(np.asarray(o.trajectories))
+                if tr.ndim == 2 and tr.shape[0] == ntraj and np.max(np.abs(tr - tr[0])) > 1e-7:
+                    worst = int(np.argmax(np.max(np.abs(tr - tr[0]), axis=1)))
+                    return (f"{kind} ({'parallel' if args.get('parallel') else 'serial'}): with scheduled jumps and a stochastic channel of negligible rate all "
+                            f"trajectories are the same evolution, but trajectory {worst} of <{o.gate.name}> on {o.sites} differs from trajectory 0 by "
+                            f"{np.max(np.abs(tr[worst] - tr[0])):.3e}: a trajectory depends on the trajectories run before it")
         n_exec = ntraj if (noisy and kind != "lindblad") else 1
         if noisy and kind in ("analog", "mcwf"):
             # every trajectory starts from the state that was passed in: the t = 0 entries do not depend on the trajectory index
@@ -459,7 +472,7 @@ def real_oracle(args, notes=None):
                     return (f"{kind}: the value at t = 0 of <{o.gate.name}> on site {o.sites} differs between the trajectories of one run "
                             f"({tr[:, 0].tolist()}): they do not all start from the state that was passed in")
         inner = [c for c in rng_calls if not c[0] and not c[1]]
-        if noisy and kind not in ("weak", "lindblad") and len(inner) != n_exec and notes is not None:
+        if noisy and kind not in ("weak", "lindblad") and not args.get("parallel") and len(inner) != n_exec and notes is not None:
             # the mechanism of the model (one OS-seeded generator per noisy trajectory), not the property itself: a serial run could
             # share one generator; reported as a broken correspondence, the pool oracle below looks for repeated trajectories
             notes.append(f"{kind}: {len(inner)} OS-seeded generators were created for {n_exec} trajectories (one per trajectory in the model)")
@@ -510,6 +523,8 @@ def search(ctx):
              dict(kind="mcwf", hist=[True], noise="with-zero"), dict(kind="weak", hist=[True], noise="with-zero"),
              dict(kind="lindblad", hist=[True], noise="with-zero"), dict(kind="lindblad", hist=[True, True]),
              dict(kind="analog", hist=[True], noise="drawn"), dict(kind="strong", hist=[True], noise="drawn"),
+             dict(kind="analog", hist=[True, True], noise="scheduled", order=1), dict(kind="analog", hist=[True], noise="scheduled", order=2),
+             dict(kind="analog", hist=[True], noise="scheduled", order=2, parallel=True),
              dict(kind="mcwf", hist=[True], asym=True), dict(kind="mcwf", hist=[False, True, False], asym=True), dict(kind="analog", hist=[True, False], asym=True), dict(kind="strong", hist=[False], asym=True)]
     if not ctx.quick:
         for _ in range(20):
